@@ -26,6 +26,10 @@ CLAIMS = {
          'TLC checks NoUploadBeforeOwnMerged and BucketMonotone over crashes at every yield point, restarts with kept or emptied LMDB and Store failures within and beyond the retry budget; the same behaviours are replayed on the real loop (goroutine unwound at the yield point = crash), each stored blob is decoded and compared with the previous newest one and the own-snapshot guard is evaluated on the real run.',
          'One instance + environment at loop level; the interaction with cleaners of other instances is decided by the Cleaner model of C12 (separate check); application writes monotone per key.',
          'DESIGN.md section 5 C05'),
+ 'C06': ('TLA+ spec LSDump (dump pinned to one transaction vs. application commits, write-lock holding, snapshot time) + LSProtocol image; TLC exhaustive; every interleaving replayed on the real SendOnce through hooks.BeforeRead/FilterReadDBI; decoded blobs compared with the recorded content of the pinned transaction',
+         'TLC checks SnapshotIsImage, CrossDBIConsistent and TimeNotBeforeContent for every placement of application commits (also between two entries and with the application holding the write lock when SendOnce is called); each interleaving is forced on the real SendOnce with the harness acting as the application, and the decoded blob must equal the raw content recorded for exactly the pinned transaction (two DBIs with different flags, 511-byte and integer keys, empty and 128 kB values, extension blocks, markers), carry no private DBI, and name database, instance and a strictly increasing time.',
+         'Two DBIs, <=3 application commits, <=2 dumps per behaviour; monotone wall clock; values up to 128 kB (megabyte values only in the thorough tier).',
+         'DESIGN.md section 5 C06'),
  'C09': ('TLA+ spec LSLoop; TLC exhaustive + simulation incl. Store failures; behaviours replayed through the real stepped loop; PublishedWhenIdle evaluated on the decoded newest own blob',
          'TLC checks PublishedWhenIdle for every placement of application commits and every number of failing Store calls up to the retry budget; on the real loop the newest own blob is decoded at every idle point and must cover every application commit the harness made up to the LastTxnID the loop read. The empty-transaction window counterexample is replayed on the real code and reported as a known finding.',
          'Bounds as C03; "idle" = the loop reached its sleep and is not waiting for its own old snapshot (DESIGN.md section 7).',
